@@ -132,6 +132,16 @@ class Main(pipeline.Stream):
         # (5b) loads(json text) of plain values, Fault.error(), and the Payload builders called directly
         for v, cfg in itertools.product([None, 0, "", [], {}, [1, [2.5, None]], {"a": {"b": []}}, "x", True, 1e308, -0.0], ["default", "nojc"]):
             one(api="loads_text", cfg=cfg, params=v)
+        # with class translation off in the configuration handed to loads()/dumps(), a "__jsonclass__" member is plain data
+        for v, cfg in itertools.product([{"__jsonclass__": ["decimal.Decimal", ["1.5"]]}, {"__jsonclass__": "just a string", "value": 42},
+                                         [{"__jsonclass__": ["collections.OrderedDict", []]}, 1], {"a": {"__jsonclass__": []}},
+                                         {"__jsonclass__": ["", []]}, {"__jsonclass__": ["bad name", []]}], ["nojc", "v1nojc"]):
+            one(api="loads_text", cfg=cfg, params=v)
+            for ver in LISTED_VERSIONS:
+                one(api="dumpsloads", cfg=cfg, params=[v], rpcid=1, version=ver)
+                one(api="dumpsloads", cfg=cfg, params={"k": v}, rpcid=None, version=ver, notify=True)
+                one(api="dumpsloads", cfg=cfg, params=v, method=None, rpcid=2, version=ver, resp=True)
+                one(api="dumpsloads", cfg=cfg, params=FaultSpec(-32000, "f", v), method=None, rpcid=2, version=ver, resp=True)
         for own, data in itertools.product(IDS_SMALL, (None, 0, [1])):
             one(api="fault_error", params=FaultSpec(-32000, "Server error", data), own=own)
         direct = list(itertools.product(["p_request", "p_notify", "p_response"], ["m", None, 5],
